@@ -5,6 +5,12 @@ From TD Require Import Lib.Bytes Lib.GoSem Lib.RunLib Impl.Sha256 Impl.Sha1 Impl
 Import ListNotations.
 Open Scope Z_scope.
 
+(* byte strings arrive packed as (length, little-endian number): see hx.PackedBytes *)
+Definition packed := (Z * Z)%type.
+Fixpoint unpack_n (n : nat) (v : Z) : list Z :=
+  match n with O => [] | S k => Z.land v 255 :: unpack_n k (Z.shiftr v 8) end.
+Definition unpack (p : packed) : list Z := unpack_n (Z.to_nat (fst p)) (snd p).
+
 Definition x_message_key := message_key sha256.
 Definition x_keys := keys sha256.
 Definition x_message_key_v1 := message_key_v1 sha1.
@@ -18,7 +24,7 @@ Definition x_encrypt_bind := encrypt_bind sha1 aes_enc.
 Definition err_code (e : err) : Z :=
   match e with
   | ERand => 1 | EShort => 2 | EKeyId => 3 | EAlign => 4 | EMsgKey => 5 | ELenBig => 6
-  | ELenNeg => 7 | ELenMod4 => 8 | EPadBig => 9 | EZeroKey => 10 | EBind => 11
+  | ELenNeg => 7 | ELenMod4 => 8 | EPadBig => 9 | EZeroKey => 10 | EBind => 11 | EPadSmall => 12
   end.
 Definition side_of (z : Z) : side := if z =? 0 then Client else Server.
 
@@ -30,6 +36,9 @@ Definition obs_bytes_eqb (a b : Z * list Z) : bool :=
 
 (* observation of a decryption: (code, (salt, session, msg_id, seq_no), MessageDataLen, MessageDataWithPadding) *)
 Definition obs_dec_t := (Z * (Z * Z * Z * Z) * Z * list Z)%type.
+Definition obs_dec_p := (Z * (Z * Z * Z * Z) * Z * packed)%type.
+Definition unpack_obs_dec (o : obs_dec_p) : obs_dec_t :=
+  let '(c, h, l, b) := o in (c, h, l, unpack b).
 Definition obs_dec (r : res err dec) : obs_dec_t :=
   match r with
   | Ok d => (0, (h_salt (d_hdr d), h_session (d_hdr d), h_msg_id (d_hdr d), h_seq_no (d_hdr d)), d_len d, d_body d)
